@@ -50,6 +50,8 @@ def linear_readout(input, weight, bias, **_):
     return F.linear(input, weight, bias)
 
 def conv1d(input, weight, bias, stride, padding, dilation, groups, **_):
+    # (F.conv1d reads an int and the 1-tuple holding it alike)
+    stride, padding, dilation = [v[0] if isinstance(v, (tuple, list)) else v for v in (stride, padding, dilation)]
     return F.conv1d(input, weight, bias, stride, padding, dilation, groups)
 
 def layer_norm(input, normalized_shape, weight, bias, eps, **_):
@@ -57,7 +59,8 @@ def layer_norm(input, normalized_shape, weight, bias, eps, **_):
 
 def rms_norm(input, normalized_shape, weight, eps, **_):
     dims = tuple(range(-1, -1 - len(normalized_shape), -1))
-    r = (input.float().pow(2).mean(dims, keepdim=True) + eps).sqrt().to(input.dtype)
+    # (PyTorch reduces in at least float32, and never below the input's own precision)
+    r = (input.to(torch.promote_types(input.dtype, torch.float32)).pow(2).mean(dims, keepdim=True) + eps).sqrt().to(input.dtype)
     out = input / r
     if weight is not None:
         out *= weight  # in place: the result keeps the input's dtype also for a wider weight dtype
@@ -70,7 +73,7 @@ def embedding(input, weight, padding_idx, max_norm, norm_type, **_):
     return F.embedding(input, weight, padding_idx, max_norm, norm_type, False, False)
 
 def scaled_dot_product_attention(query, key, value, attn_mask, dropout_p, is_causal, mult, **_):
-    return F.scaled_dot_product_attention(query, key, value, attn_mask=attn_mask, dropout_p=dropout_p, is_causal=is_causal, scale=mult / value.shape[-1])
+    return F.scaled_dot_product_attention(query, key, value, attn_mask=attn_mask, dropout_p=dropout_p, is_causal=is_causal, scale=mult / query.shape[-1])  # temperature over the size of the dot products (the query / key head size)
 
 def cross_entropy(input, target, ignore_index, reduction, mult, **_):
     loss = F.cross_entropy(input * mult, target, None, None, ignore_index, None, reduction="sum", label_smoothing=0.0)
@@ -331,6 +334,11 @@ def check(report: Report, repo: Repo) -> None:
                         if al:
                             report.add("R6-no-mutation", f"{base}::inplace", False, f"in-place {ev['op']} on a value that may alias argument(s) {sorted(al)} ({full.name})", fmt(ev["target"]), "no in-place effect on inputs", where=ev.where)
                 report.add("R6-no-mutation", f"{base}::inplace", True, f"no in-place effect on an input ({full.name})", nontrivial=False)
+                # precision typestate: float64 is in the property's dtype set, so a value of the input's dtype
+                # must not be squeezed through a fixed narrower floating dtype on its way to the result
+                for ev in summ.events:
+                    if ev.kind == "narrowing-cast":
+                        report.add("R6-dtype", f"{base}::precision", False, f"{full.name}: a value of the input's dtype is converted to {ev['to_dtype']} ({ev['method']}): for a float64 input the result carries float32 rounding errors that depend on the data (PyTorch computes in float64)", f".{ev['method']}() -> {ev['to_dtype']}", "computation in at least the input's precision", where=ev.where)
                 if func not in mirrored:
                     continue
                 if not summ.cases:
